@@ -74,6 +74,27 @@ def cases(run: Run):
             elif what == "near":
                 c["rho"] = 500.0
         out.append(c)
+    # the edge of the Earth's shadow: an optical ground site at local midnight looking 35-60 deg up; along that line of sight targets below
+    # R_E / cos(el) are in the umbra, the ones beyond are lit.  The tasked target is lit, the serendipitous ones (same size, same field of view)
+    # straddle the edge: each must be judged on its own illumination
+    for _ in range(run.n(16, 120)):
+        lon = rng.choice([0.0, -100.0, 140.0])
+        el = rng.choice([35.0, 45.0, 60.0])
+        edge = 6378.0 / math.cos(math.radians(el))
+        c = {
+            "stype": "optical", "host": "ground", "fov": rng.choice(["conic", "rect"]), "size": rng.choice([5.0, 10.0, 20.0]), "size2": 20.0,
+            "az": rng.uniform(0, 360), "el": el, "rho": edge * rng.choice([1.12, 1.2, 1.35]), "off": 0.0, "offdir": 0.0,
+            "mask": [0.0, 359.99999], "elmask": [1.0, 89.99999], "minr": None, "maxr": None, "slew": 3.0, "since": 60.0, "prev_az": rng.uniform(0, 360), "prev_el": 45.0,
+            "xs": 25.0, "refl": 0.21, "nbg": 4, "bg": True, "lat": 0.0, "lon": lon, "seed": rng.randint(0, 10**6), "kind": "shadow-edge",
+        }
+        c["hour"] = int(round((24 - lon / 15.0) % 24)) % 24
+        out.append(c)
+    # the same constraints through a whole scenario (engine, worker jobs, the sensor state reported back to the main process): a slow mount and
+    # geostationary targets further apart than one step's slew budget - what the sensor reports over many steps must be reachable
+    for _ in range(run.n(1, 5)):
+        lon = rng.choice([10.0, -60.0, 120.0])
+        out.append({"op": "scn", "lon": lon, "offsets": rng.sample([5.25, -3.25, 1.0, -7.5, 9.0], 3), "slew": rng.choice([0.1, 0.1, 0.15]), "dt": 60,
+                    "steps": run.n(16, 30), "fov": rng.choice([2.0, 3.0]), "seed": rng.randint(1, 9999), "decision": rng.choice(["MunkresDecision", "MyopicNaiveGreedyDecision"])})
     return out
 
 
@@ -341,6 +362,18 @@ def oracle(run: Run, c, impl, mo):
 
 
 def run_cases(run: Run, cs):
+    scn_cases = [c for c in cs if c.get("op") == "scn"]
+    cs = [c for c in cs if c.get("op") != "scn"]
+    for c in scn_cases:
+        r = guarded(scn_run, c)
+        run.case("scenario", c, nontrivial=True, branch=f"scenario:{c['decision']}")
+        if r[0] == "ok":
+            run.count("scenario:observations", len(r[1]))
+            run.count("scenario:target-changes", sum(1 for a, b in zip(r[1], r[1][1:]) if a["target"] != b["target"]))
+        for key, what in scn_oracle(c, r):
+            run.fail(key, c, what)
+    if not cs:
+        return
     impls = [guarded(impl_run, c) for c in cs]
     lines = [model_line(c, i[1]) if i[0] == "ok" else None for c, i in zip(cs, impls)]
     outs = run.model([l for l in lines if l])
@@ -366,12 +399,76 @@ def run_cases(run: Run, cs):
             run.fail(key, c, what)
 
 
+# ----------------------------------------------------------------------------- the constraints through a whole scenario
+SCN_START = datetime(2021, 3, 30, 16, 0, 0)
+
+
+def scn_run(c):
+    """a real scenario (Ray jobs and all): per step, every observation the engine reports with the direction from the sensor to the target's TRUE
+    position in the sensor's own topocentric frame, computed here from the truth states"""
+    import scen
+    from resonaate.physics.transforms.methods import ecef2eci, eci2ecef
+
+    lon0 = c["lon"]
+
+    def geo(tid, lon_deg):
+        ecef = np.array([42164.0 * math.cos(math.radians(lon_deg)), 42164.0 * math.sin(math.radians(lon_deg)), 0.0, 0.0, 0.0, 0.0])
+        eci = ecef2eci(ecef, SCN_START)
+        return scen.target_cfg(tid, eci[:3], eci[3:])
+
+    sensor = scen.radar_cfg(100001, 0.0, lon0, alt=0.0, slew=c["slew"], fov={"fov_shape": "conic", "cone_angle": c["fov"]}, adv=True)
+    sensor["sensor"].update(aperture_diameter=30.0, tx_power=3.0e7, min_detectable_power=1.0e-19, covariance=np.diag([1e-10, 1e-10, 1e-8, 1e-11]).tolist())
+    targets = [geo(30001 + k, lon0 + off) for k, off in enumerate(c["offsets"])]
+    eng = [scen.engine_cfg(1, targets, [sensor], decision=c["decision"])]
+    app = scen.build(scen.scenario_cfg(SCN_START, c["dt"], c["dt"] * (c["steps"] + 1), eng, seed=c["seed"]))
+    lat, lon = 0.0, math.radians(lon0)
+    # south-east-zenith axes of the site in the Earth-fixed frame
+    sez = np.array([[math.sin(lat) * math.cos(lon), math.sin(lat) * math.sin(lon), -math.cos(lat)], [-math.sin(lon), math.cos(lon), 0.0],
+                    [math.cos(lat) * math.cos(lon), math.cos(lat) * math.sin(lon), math.sin(lat)]])
+    out = []
+    try:
+        for _k in range(c["steps"]):
+            app.stepForward()
+            e = list(app._tasking_engines.values())[0]
+            when = app.clock.datetime_epoch
+            s_ecef = eci2ecef(np.asarray(app.sensor_agents[100001].eci_state, dtype=float), when)[:3]
+            for o in e.observations:
+                t_ecef = eci2ecef(np.asarray(app.target_agents[o.target_id].eci_state, dtype=float), when)[:3]
+                d = sez @ (t_ecef - s_ecef)
+                out.append({"t": float(app.clock.time), "sensor": int(o.sensor_id), "target": int(o.target_id), "dir": [float(v) for v in d / np.linalg.norm(d)]})
+    finally:
+        scen.cleanup()
+    return out
+
+
+def scn_oracle(c, impl):
+    """slew reachability over the history: between two observations a sensor reports, its boresight can have turned by at most rate x elapsed time
+    (whatever it was tasked to in between), and each observed target lies within half a field of view of the boresight at its epoch"""
+    if impl[0] != "ok":
+        return [("scenario:raises", str(impl[1]))]
+    fails = []
+    last = {}
+    n = 0
+    for o in impl[1]:
+        prev = last.get(o["sensor"])
+        if prev is not None and o["t"] >= prev["t"]:
+            ang_deg = math.degrees(math.acos(max(-1.0, min(1.0, float(np.dot(prev["dir"], o["dir"]))))))
+            budget = c["slew"] * (o["t"] - prev["t"]) + c["fov"] + 0.05
+            n += 1
+            if ang_deg > budget:
+                fails.append(("scenario:slew", f"sensor {o['sensor']} reports target {prev['target']} at t={prev['t']:.0f} s and target {o['target']} at t={o['t']:.0f} s: {ang_deg:.2f} deg apart, "
+                                               f"but {c['slew']} deg/s for {o['t'] - prev['t']:.0f} s and a {c['fov']} deg field of view allow {budget:.2f} deg (GEO targets at {c['offsets']} deg from the site's meridian)"))
+                break
+        last[o["sensor"]] = o
+    return fails
+
+
 def search(run: Run):
     sub = Run.__new__(Run)
     sub.__dict__.update(run.__dict__)
     sub.rng = __import__("random").Random(run.seed + 59)
     sub.tier = "thorough"
-    for c in cases(sub)[:2500]:
+    for c in [c for c in cases(sub) if c.get("op") != "scn"][:2500]:
         f = oracle(run, c, guarded(impl_run, c), None)
         if f:
             return (f[0][0], c, f[0][1])
